@@ -49,21 +49,23 @@ Patched(i) == \E j \in 1..Len(Case.sz) : Case.sz[j].i = i
 FileSize(i) == IF Patched(i) THEN LET j == CHOOSE j \in 1..Len(Case.sz) : Case.sz[j].i = i IN
                                     [k |-> Case.sz[j].k, v |-> Case.sz[j].v]
                ELSE [k |-> "val", v |-> Schema.sizes[i].val]
-Pristine == [i \in 1..NS |-> Schema.sizes[i].val]
+Pristine == Schema.pvals              \* = [i \in 1..NS |-> Schema.sizes[i].val], stored in the schema
 \* bytes of array a when the sizes are S (S must be a value, not an expression: it is used NA times)
 ABytes(a, S) == a.el * S[a.rows] * a.cc * (IF a.cv = 0 THEN 1 ELSE S[a.cv])
 \* (folds are SequencesExt!FoldLeft: iterative in TLC, the real format has several hundred arrays)
 SumBytes(S) == FoldLeft(LAMBDA acc, a : acc + ABytes(a, S), 0, Schema.arrays)
 \* size of the model buffer: every array starts at a multiple of 64
 Nbuf(S)     == FoldLeft(LAMBDA off, a : off + ((64 - (off % 64)) % 64) + ABytes(a, S), 0, Schema.arrays)
+PristineNbuf == Nbuf(Pristine)
 HdrBytes    == Schema.hdr
 SizesBytes  == 8 * NS
-PristineLen == HdrBytes + SizesBytes + Schema.structs + SumBytes(Pristine)
+PristineArrays == SumBytes(Pristine)
+PristineLen == HdrBytes + SizesBytes + Schema.structs + PristineArrays
+\* (cases that leave the size fields alone take the pristine values of the derived quantities: same values, computed once)
+SizesIntact == Len(Case.sz) = 0
 IsArg(i) == Schema.sizes[i].cls = "arg"
 \* nnames_map as mj_makeModel derives it from its arguments
-MapOf(S) == Schema.mapmul * (LET RECURSIVE Sum(_)
-                                 Sum(T) == IF T = {} THEN 0 ELSE LET x == CHOOSE x \in T : TRUE IN S[x] + Sum(T \ {x})
-                             IN Sum(Schema.mapsrc))
+MapOf(S) == Schema.mapmul * FoldLeft(LAMBDA acc, x : acc + S[x], 0, Schema.mapsrc)
 ArgsBad == \E i \in 1..NS : IsArg(i) /\ (FileSize(i).k # "val" \/ FileSize(i).v < 0 \/ FileSize(i).v >= Big)
 NoBody  == FileSize(Schema.inbody).k = "val" /\ FileSize(Schema.inbody).v = 0
 \* derived fields that are not even small numbers
@@ -81,9 +83,13 @@ RefsInBounds(S) == \A r \in 1..Len(Schema.refs) : \A k \in 1..Len(Schema.refs[r]
                       InBounds(RefVal(r, k), RefNum(r, k), S[Schema.refs[r].tgt], Schema.refs[r].opt)
 
 \* ---- the loader -------------------------------------------------------------------------------------------
-Init == /\ c \in CaseIds /\ f_raw = << >> /\ f_bad = FALSE /\ f_alloc = << >> /\ f_nbuf = 0 /\ f_vals = << >> /\ f_rsz = << >>
-        /\ f_len = 0 /\ phase = "Prepare" /\ pos = 0 /\ res = "" /\ why = "" /\ warned = FALSE
+Init == /\ c = 0 /\ f_raw = << >> /\ f_bad = FALSE /\ f_alloc = << >> /\ f_nbuf = 0 /\ f_vals = << >> /\ f_rsz = << >>
+        /\ f_len = 0 /\ phase = "Pick" /\ pos = 0 /\ res = "" /\ why = "" /\ warned = FALSE
         /\ rd = [at |-> 0, n |-> 0] /\ wr = TRUE
+
+\* one initial state; the case is chosen by the first step
+Pick == /\ phase = "Pick" /\ c' \in CaseIds /\ phase' = "Prepare"
+        /\ UNCHANGED <<file, pos, res, why, warned, rd, wr>>
 
 \* The damaged file, computed once per case.  Each conjunct uses the primed values of the ones before it, so
 \* TLC computes every function once (a LET definition would be re-evaluated at each of its many uses):
@@ -98,11 +104,11 @@ Prepare ==
   /\ f_raw' = [i \in 1..NS |-> FileSize(i).v]
   /\ f_bad' = ArgsBad
   /\ f_alloc' = [f_raw' EXCEPT ![Schema.imap] = MapOf(f_raw')]
-  /\ f_nbuf' = IF f_bad' THEN -1 ELSE Nbuf(f_alloc')
+  /\ f_nbuf' = IF f_bad' THEN -1 ELSE IF SizesIntact THEN PristineNbuf ELSE Nbuf(f_alloc')
   /\ f_vals' = IF Case.fit THEN [f_raw' EXCEPT ![Schema.imap] = f_alloc'[Schema.imap], ![Schema.inbuf] = f_nbuf']
                ELSE f_raw'
   /\ f_rsz' = IF LoaderChecksMap THEN f_alloc' ELSE f_vals'
-  /\ f_len' = IF Case.exact /\ ~f_bad' THEN HdrBytes + SizesBytes + Schema.structs + SumBytes(f_rsz')
+  /\ f_len' = IF Case.exact /\ ~f_bad' THEN HdrBytes + SizesBytes + Schema.structs + (IF SizesIntact THEN PristineArrays ELSE SumBytes(f_rsz'))
               ELSE IF Case.trunc >= 0 THEN Case.trunc ELSE PristineLen + Case.ext
   /\ phase' = "ReadHeader" /\ UNCHANGED <<c, pos, res, why, warned, rd, wr>>
 FileLen == f_len
@@ -153,12 +159,12 @@ FirstShort(p, S) == FoldLeft(LAMBDA st, a : IF st[2] # 0 THEN st
                                                  ELSE <<st[1] + b, 0, st[3] + 1>>,
                              <<p, 0, 1>>, Schema.arrays)[2]
 \* every array read fits the room allocated for it
-Fits == \A i \in 1..NA : /\ ABytes(Schema.arrays[i], f_rsz) <= ABytes(Schema.arrays[i], f_alloc)
+Fits == SizesIntact \/ \A i \in 1..NA : /\ ABytes(Schema.arrays[i], f_rsz) <= ABytes(Schema.arrays[i], f_alloc)
                           /\ ABytes(Schema.arrays[i], f_rsz) >= 0
 ReadArrays ==
   /\ phase = "ReadArrays"
   /\ IF FirstShort(pos, f_rsz) # 0 THEN Reject("array-truncated")
-     ELSE /\ Goto("CheckEnd") /\ Read(SumBytes(f_rsz))
+     ELSE /\ Goto("CheckEnd") /\ Read(IF SizesIntact THEN PristineArrays ELSE SumBytes(f_rsz))
           /\ wr' = Fits
 
 CheckEnd ==
@@ -168,7 +174,7 @@ CheckEnd ==
 
 Accept == /\ phase' = "Done" /\ res' = "ok" /\ why' = "accepted" /\ UNCHANGED <<c, file, pos, warned, rd, wr>>
 \* the arrays are where they were in the pristine file (so their content is what it was) ...
-Unshifted == \A i \in 1..NA : ABytes(Schema.arrays[i], f_rsz) = ABytes(Schema.arrays[i], Pristine)
+Unshifted == SizesIntact \/ \A i \in 1..NA : ABytes(Schema.arrays[i], f_rsz) = ABytes(Schema.arrays[i], Pristine)
 \* ... and no field the specification does not interpret was overwritten
 Interpretable == Unshifted /\ ~Case.ty
 Validate ==
@@ -183,14 +189,14 @@ Done == /\ phase = "Done" /\ Report /\ phase' = "Reported"
                      IF f_bad THEN 0 ELSE f_vals[Schema.inbuf]>>)
         /\ UNCHANGED <<c, file, pos, res, why, warned, rd, wr>>
 
-Next == Prepare \/ ReadHeader \/ ReadSizes \/ Make \/ CheckNbuffer \/ SetSizes \/ ReadStructs \/ ReadArrays
+Next == Pick \/ Prepare \/ ReadHeader \/ ReadSizes \/ Make \/ CheckNbuffer \/ SetSizes \/ ReadStructs \/ ReadArrays
         \/ CheckEnd \/ Validate \/ Done
 Spec == Init /\ [][Next]_vars
 
 \* ---- the property ----------------------------------------------------------------------------------------
-Phases == {"Prepare", "ReadHeader", "ReadSizes", "Make", "CheckNbuffer", "SetSizes", "ReadStructs",
+Phases == {"Pick", "Prepare", "ReadHeader", "ReadSizes", "Make", "CheckNbuffer", "SetSizes", "ReadStructs",
            "ReadArrays", "CheckEnd", "Validate", "Done", "Reported"}
-Loading == phase # "Prepare"
+Loading == phase \notin {"Pick", "Prepare"}
 TypeOK == phase \in Phases /\ res \in {"", "null", "ok"} /\ pos >= 0
 \* loading never reads outside the buffer ...
 ReadInBounds  == Loading => (rd.n >= 0 /\ rd.at >= 0 /\ rd.at + rd.n <= FileLen /\ pos <= FileLen)
@@ -223,7 +229,7 @@ MC_SizesNoBuf == << [name |-> "nA", val |-> 2, cls |-> "arg"], [name |-> "nB", v
                     [name |-> "nD", val |-> 3, cls |-> "dat"] >>
 \* nbuffer of the pristine miniature: a_ref 8 @0, b_pos 72 @64, a_adr 8 @192, a_num 8 @256, a_user 16 @320,
 \* names 6 @384, map 40 @448, b_opt 12 @512 -> 524
-MC_Schema == [hdr |-> 20, structs |-> 12, mapmul |-> 2, mapsrc |-> {1, 2}, imap |-> 4, inbuf |-> 6, inbody |-> 1,
+MC_Schema == [hdr |-> 20, structs |-> 12, mapmul |-> 2, mapsrc |-> <<1, 2>>, pvals |-> <<2, 3, 1, 10, 3, 524>>, imap |-> 4, inbuf |-> 6, inbody |-> 1,
               sizes |-> MC_SizesNoBuf \o << [name |-> "nbuffer", val |-> 524, cls |-> "nbuf"] >>,
               arrays |-> MC_Arrays,
               refs |-> << [arr |-> 1, tgt |-> 2, opt |-> FALSE, vals |-> <<0, 2>>, nums |-> << >>],
